@@ -403,6 +403,7 @@ var (
 	reSpaces   = regexp.MustCompile(`#tape:(qualified\.)?(before_first|after_last|two_spaces|no_decorations)$`)
 	// a comment decoration becomes one ast.Comment in one group that is registered once, when it is created
 	reCommentsOnce = regexp.MustCompile(`(applyDecorations|addCommentField)#(comments:|ensures:(registered_at_slash|comments_prefix|empty_is_noop)$|call:.*:at_cursor@\d+$)`)
+	reObjNodeMaps  = regexp.MustCompile(`(decorateObject|decorateScope|restoreObject|restoreScope)#(ensures|loop\d+-(entry|preserve(\.\d+)?)):(maps|dst_map_grows|ast_map_grows|decl_node|data_node)$`)
 	reDup          = regexp.MustCompile(`#ensures:duplicates_rejected$|#maps:registered_before_recursion`)
 )
 
@@ -443,12 +444,14 @@ func init() {
 		Build: func(p *Program, tier string) ([]*Unit, []UnitError) {
 			us, es := restoreUnitsOf(p, tier, false)
 			us2, es2 := buildDecorateNode(p, tier)
-			us3, es3 := buildFuncUnits(p, []string{fd("decorateSelectorExpr"), pkgDecorator + ".mergeDecorations"}, nil)
+			us3, es3 := buildFuncUnits(p, []string{fd("decorateSelectorExpr"), pkgDecorator + ".mergeDecorations", fd("decorateObject"), fd("decorateScope"), fr("restoreObject"), fr("restoreScope")}, nil)
 			return append(append(us, us2...), us3...), append(append(es, es2...), es3...)
 		},
 		Select: func(n string) bool {
 			return reMaps.MatchString(n) || strings.Contains(n, "#fields:") || strings.Contains(n, "#maps:registered_before_recursion") ||
-				strings.Contains(n, "decorateSelectorExpr#") || strings.Contains(n, "mergeDecorations#")
+				strings.Contains(n, "decorateSelectorExpr#") || strings.Contains(n, "mergeDecorations#") ||
+				// the object/scope conversions reach the node maps through decorateNode: entries only grow, Decl/Data are map counterparts
+				reObjNodeMaps.MatchString(n)
 		},
 		Siblings: "C12 (position space), C04 (tape), C06 (duplicates)",
 		Assumptions: []string{
@@ -481,11 +484,13 @@ func init() {
 		Title:    "Every decoration is rendered exactly once at its documented attachment point",
 		Packages: []string{pkgDecorator, pkgDstutil},
 		Build: func(p *Program, tier string) ([]*Unit, []UnitError) {
-			us, es := restoreUnitsOf(p, tier, false)
+			us, es := restoreUnitsOf(p, tier, true)
 			us2, es2 := buildAccessors(p, tier)
 			return append(us, us2...), append(es, es2...)
 		},
-		Select:   func(n string) bool { return reTape.MatchString(n) || strings.Contains(n, "#accessor:") },
+		Select: func(n string) bool {
+			return reTape.MatchString(n) || strings.Contains(n, "#accessor:") || reCommentsOnce.MatchString(n)
+		},
 		Siblings: "C12 (position space), C11 (maps), C03 (fields)",
 	})
 }
